@@ -46,13 +46,18 @@ P = {'id': 'C19',
              'operations (ids from the C03 directory model); src/io/mmap.rs MemoryMappedOutput create/ensure_capacity/write_slice/seek/truncate and '
              'MemoryMappedInput len/read_slice (all evaluated against the real readers and writers on every run)',
              'spec-only (oracle on the real code, no mechanism model): SuffixArrayDictionary save/load (bincode image; its write protocol is compared '
-             'with the modelled atomic-replace sequence)',
-             'zstd (compress_level > 0) is outside the model: the harness builds ZipOffsetBlobStore files with compress_level 0',
+             'with the modelled atomic-replace sequence), DictZipBlobStore dictionary files (save_dictionary / load_dictionary / '
+             'from_dictionary_file), NestLoudsTrieBlobStore (its records reach a file through finalize + blob_store().save_to_file), '
+             'ReplaceSelectSort run files (parsed by the definition of their format; a finished run cut short before the merge must fail the sort), '
+             'and the secondary entry points, presets, element types (signed, u128, 3-byte, zero-sized) and thresholds of the modelled cells '
+             '(design/C19.md, Oracle breadth): histories containing them are judged by the oracle and left out of the model comparison',
+             'zstd (compress_level > 0) is outside the model: the modelled ZipOffsetBlobStore cases are built with compress_level 0; the presets '
+             'with zstd levels 1-12 (22 in the thorough tier) are oracle-only',
              'the in-process file-operation tracer of the harness (libc symbol interposition; self-tested at start-up and cross-checked against the '
              'real directory after every case) and the crash relation built on it: ordered prefixes, torn last write, one unsynced write dropped, '
              'one 4 KiB block rolled back; fsync pins earlier writes of that file; rename/unlink/set_len atomic',
-             'not covered: real power-loss behaviour of a file system beyond that relation, mmap coherence, external_sort run files (private to one '
-             'process), NestLoudsTrieBlobStore (has no persistence API)'],
+             'not covered: real power-loss behaviour of a file system beyond that relation, mmap coherence, the blobs of a DictZipBlobStore and the '
+             'trie of a NestLoudsTrieBlobStore (neither is ever written to a file), MemoryMappedAllocator (anonymous mappings)'],
  'assumptions': ['a crash leaves the operations issued before it applied in order, except as the stated relation allows',
                  'agreement of model and code is established on the generated cases only',
                  'the reader process runs on the same machine and file system as the writer'],
@@ -69,7 +74,7 @@ P = {'id': 'C19',
                'images and truncations and reopens each in a child process. Proof is the right level because the quantifier is all histories, all '
                'crash points and all byte strings.',
  'level_note': 'Trusted: Coq kernel + vm_compute; the hand-written model (agreement with the code is checked on generated cases only); the harness '
-               'tracer, crash relation, generators and oracle. Oracle-only cell: SuffixArrayDictionary. All other cells (MmapVec, ZReorderMap, '
+               'tracer, crash relation, generators and oracle. Oracle-only cells: SuffixArrayDictionary, DictZipBlobStore dictionaries, NestLoudsTrieBlobStore, ReplaceSelectSort run files. All other cells (MmapVec, ZReorderMap, '
                'PlainBlobStore, ZipOffsetBlobStore, MemoryMappedOutput/Input) have executable models of writer and reader checked against the code on '
                'every run and unbounded theorems (round trip, truncation, inside-file, crash safety of the write protocol, header invariant of every '
                'operation history).',
@@ -77,4 +82,4 @@ P = {'id': 'C19',
               'vm_compute + traced crash-image oracle with reopen in a separate process',
  'explanation': 'Unbounded Coq theorems about a Gallina restatement of MmapVec open/sync and an explicit crash relation + differential check of the model '
                 'against the compiled reader/writer + crash-image oracle on the real code (file operations traced, images reopened in a child process).',
- 'harness_timeout': 900}
+ 'harness_timeout': 1500}
